@@ -36,7 +36,7 @@ def run_impl(case):
 
 
 def model_case(case):
-    if any(h.get("late") for h in case.get("handlers") or []):
+    if any(h.get("late") for h in case.get("handlers") or []) or case.get("exc_raises") or case.get("_adapter_only"):
         return None        # registration while the loop runs is not an action of the machine model: such cases are judged by the oracle on the implementation only
     # fuel: the model's history must reach at least as far as the implementation's observation budget (the history flags that classify known findings
     # are computed on it)
